@@ -18,6 +18,7 @@ C10 == INSTANCE Mon_C10 WITH MCfg <- P
 C19 == INSTANCE Mon_C19 WITH MCfg <- P
 C18 == INSTANCE Mon_C18 WITH MCfg <- P
 C14 == INSTANCE Mon_C14 WITH MCfg <- P
+C20 == INSTANCE Mon_C20 WITH MCfg <- P
 
 IsObs(tr) == tr # <<>> /\ "obs" \in DOMAIN tr[1]      \* a sequence of idle observations (C19 scaling), not a history
 Verdicts(tr) ==
@@ -33,7 +34,8 @@ Verdicts(tr) ==
    C10 |-> FoldLeft(C10!Step, C10!Init, tr).viol,
    C19 |-> FoldLeft(C19!Step, C19!Init, tr).viol,
    C18 |-> FoldLeft(C18!Step, C18!Init, tr).viol,
-   C14 |-> FoldLeft(C14!Step, C14!Init, tr).viol]
+   C14 |-> FoldLeft(C14!Step, C14!Init, tr).viol,
+   C20 |-> FoldLeft(C20!Step, C20!Init, tr).viol]
 
 ASSUME JsonSerialize(IOEnv.OUT, [i \in 1..Len(Traces) |-> Verdicts(Traces[i])])
 
